@@ -83,7 +83,7 @@ func (mt *MerkleTree) Open(i int) (MerkleProof, error) {
 		posBound  = 1 << mt.Depth()
 	)
 
-	if i >= posBound {
+	if i < 0 || i >= posBound {
 		return nil, errors.New("error: index out of range")
 	}
 
@@ -111,6 +111,12 @@ func (proof MerkleProof) Verify(i int, leaf, root Hash) error {
 		parentPos = i
 		curNode   = leaf
 	)
+
+	// the position must address a leaf of a tree of depth len(proof): the
+	// loop below only consumes the len(proof) low bits of i.
+	if i < 0 || (len(proof) < 63 && i >= 1<<len(proof)) {
+		return errors.New("error: index out of range")
+	}
 
 	for _, h := range proof {
 
